@@ -447,6 +447,12 @@ func (ev *evaluator) apply(name string, args []V) (V, *Fault) {
 				best = i
 			}
 		}
+		// the extremal number "found": its value is pinned, its spelling is not
+		// (an implementation may hand back the number it compared with)
+		if n, isNum := a.E[best].(Num); isNum {
+			n.Txt = ""
+			return n, nil
+		}
 		return a.E[best], nil
 	case "max_by", "min_by":
 		a, ok := args[0].(*Arr)
